@@ -32,6 +32,10 @@ namespace pika {
     {
         PIKA_ASSERT(threads::detail::get_self_ptr() != nullptr);
 
+        // Do not let an error left in ec by an earlier call be mistaken for a
+        // failure of the wait below.
+        if (&ec != &throws) ec = make_success_code();
+
         std::unique_lock<mutex_type> l(mtx_);
 
         threads::detail::thread_id_type self_id = pika::threads::detail::get_self_id();
@@ -105,6 +109,10 @@ namespace pika {
         char const* /* description */, error_code& ec)
     {
         PIKA_ASSERT(threads::detail::get_self_ptr() != nullptr);
+
+        // Do not let an error left in ec by an earlier call be mistaken for a
+        // failure of the wait below.
+        if (&ec != &throws) ec = make_success_code();
 
         std::unique_lock<mutex_type> l(mtx_);
 
